@@ -243,6 +243,17 @@ def build(tier='quick'):
             if order:
                 vs.reverse()
             add(f'bounds-string-{a}-{b}-{order}', 'full', decl_src('string', f'validate({", ".join(vs)})'), ok, f'string: `{", ".join(vs)}`')
+    # the same literal bounds forwarded by a user's macro_rules! as `expr` / `literal` / `tt` fragments: the macro still sees
+    # literals (through the invisible group of an `expr` fragment) and must refuse the contradictory ones
+    for frag in ('expr', 'literal', 'tt'):
+        for fam, inner, lo_k, up_k, good, bad in (('int', 'i32', 'greater_or_equal', 'less_or_equal', ('0', '100'), ('100', '0')),
+                                                  ('float', 'f64', 'greater', 'less', ('0.5', '1.5'), ('1.5', '0.5')),
+                                                  ('string', 'String', 'len_char_min', 'len_char_max', ('2', '5'), ('6', '5'))):
+            for (a, b), ok in ((good, True), (bad, False)):
+                src = PRE + (f'macro_rules! ranged {{ ($lo:{frag}, $hi:{frag}) => {{\n#[nutype(validate({lo_k} = $lo, {up_k} = $hi))]\npub struct T({inner});\n}}; }}\n'
+                             f'ranged!({a}, {b});\n')
+                add(f'bounds-via-macro-{frag}-{fam}-{"ok" if ok else "contradictory"}', 'full', src, ok,
+                    f'{fam}: `{lo_k} = {a}, {up_k} = {b}` forwarded by macro_rules as `{frag}` fragments')
     # bounds written as large non-decimal literals (typed by inference from the inner type)
     add('bounds-u64-big-hex', 'full', decl_src('int', 'validate(less = 0xFF_FFFF_FFFF)', inner='u64'), True, 'u64: `less = 0xFF_FFFF_FFFF`')
     add('bounds-i128-big-expr', 'full', decl_src('int', 'validate(less_or_equal = (2_000_000_000 + 2_000_000_000))', inner='i128'), True, 'i128: sum of unsuffixed literals above i32::MAX')
